@@ -167,6 +167,16 @@ def run(ctx):
         n, s = escw[0]
         res.add(Finding('C08', 'C08.c', 'R-CONTAIN', wt.file, wt.qualname, wt.node.lineno, 'exception from %s ends the worker loop' % s.extra.get('exc_src'),
                         'an exception while serving one task terminates the worker: later recordings fail although they are fine', witness=dw.path_to(n, s)))
+    # ---------------- C08.f a hung worker cannot block the run (shared with C13.a)
+    from . import c13
+    cfj = res.clause('C08.f', 'R-ABSINT', 'a hung worker fails only its own recording: no unbounded join can block the run', floor=1)
+    handle = c13.worker_handle(eq)
+    joins, badj = c13.unbounded_joins(eq, handle, eq.lookup('_create_or_recycle_player_process_if_needed'))
+    cfj.instance('%d join(s) on the worker handle, none unbounded outside the cooperative recycle path' % len(joins), eq.name, not badj)
+    cfj.evaluations += len(joins)
+    for m, n in badj:
+        res.add(Finding('C08', 'C08.f', 'R-ABSINT', m.file, m.qualname, n.lineno, norm(n),
+                        'join() without timeout on a worker that may be hung: if it does not die the run blocks and no later recording gets a verdict'))
     # ---------------- C08.d
     callers = {m.name for m in eq.methods.values() for n in ast.walk(m.node) if isinstance(n, ast.Call) and self_attr(n.func) == pac.name}
     impls = [m for m in eq.methods.values() if m is not pac and any(isinstance(n, ast.Call) and self_attr(n.func) == 'player' for n in ast.walk(m.node))]
